@@ -85,6 +85,13 @@ GENERIC_ITEMS = [  # compile-valid generic declarations per derive family (deriv
     ("Debug", "#[derive(derive_more::Debug)] pub struct G<T>(pub [T; LEN], pub [u8; LEN]);"),
     ("Display", "#[derive(derive_more::Display)] #[display(\"{}\", _0[0])] pub struct G<T>(pub [T; LEN]) where T: core::fmt::Display;"),
     ("Error", "#[derive(derive_more::Debug, derive_more::Display, derive_more::Error)] #[display(\"e\")] pub struct G<T>(#[error(source)] pub Box<T>, pub [u8; LEN]);"),
+    # a type parameter declared AFTER a const parameter (rustc accepts any order of type and const parameters)
+    ("Debug", "#[derive(derive_more::Debug)] pub struct G<const N: usize, T>(pub [u8; N], pub T);"),
+    ("Debug", "#[derive(derive_more::Debug)] pub enum G<A, const N: usize, B> { X(A), Y { b: B, n: [u8; N] } }"),
+    ("Display", "#[derive(derive_more::Display)] #[display(\"{_1}\")] pub struct G<const N: usize, T>(pub [u8; N], pub T);"),
+    ("From", "#[derive(derive_more::From, derive_more::Into, derive_more::Constructor)] pub struct G<const N: usize, T>(pub [u8; N], pub T);"),
+    ("Add", "#[derive(derive_more::Add, derive_more::Not)] pub struct G<const N: usize, T>(pub T, pub T);"),
+    ("Error", "#[derive(derive_more::Debug, derive_more::Display, derive_more::Error)] #[display(\"e\")] pub struct G<const N: usize, T>(#[error(source)] pub T, pub [u8; N]);"),
     # parameters DECLARED with the operator's trait (no `Output = ..`): the impl still needs `T: Op<Output = T>` next to it
     ("Add", "#[derive(derive_more::Add, derive_more::Sub)] pub struct G<T: core::ops::Add + core::ops::Sub>(pub T, pub T);"),
     ("Add", "#[derive(derive_more::BitAnd, derive_more::BitOr)] pub struct G<T> where T: core::ops::BitAnd, T: core::ops::BitOr { pub a: T }"),
